@@ -221,3 +221,49 @@ Theorem C16_finished_items_right : forall HO, hash_ok HO ->
   forall i, In i ys -> right_id_item HO data size' i.
 Proof. exact any_size_finished_ids. Qed.
 Print Assumptions C16_finished_items_right.
+
+(* ---- collision form (Proofs/Collision.v; depends on Classical_Prop.classic): without the idealised injectivity
+   hypothesis, a run that finishes under a wrong claimed size exhibits a collision of the hash functions ---- *)
+From BaoV Require Import Proofs.Collision.
+Theorem C16_size_authenticated_or_collision : forall HO, cv_len32 HO -> beq_correct HO ->
+  (forall (data : bytes HO) size' bs q (stream : bytes HO) ys st,
+  size' <= 2 ^ 63 -> blen HO data <= 2 ^ 63 -> bs <= 10 -> wf_ranges q = true ->
+  sel q size' (nchunks size' - 1) = true ->
+  dec_run HO (dec_new HO (root_hash HO data) (mkTree size' bs) stream q) = (ys, Finished, st) ->
+  size' = blen HO data) \/
+  collision HO.
+Proof. intros HO Hl Hb. apply (or_collision HO _ Hl Hb). exact (C16_size_authenticated HO). Qed.
+Print Assumptions C16_size_authenticated_or_collision.
+
+Theorem C16_size_authenticated_fsm_or_collision : forall HO, cv_len32 HO -> beq_correct HO ->
+  (forall (data : bytes HO) size' bs q (stream : bytes HO) ys st,
+  size' <= 2 ^ 63 -> blen HO data <= 2 ^ 63 -> bs <= 10 -> wf_ranges q = true ->
+  sel q size' (nchunks size' - 1) = true ->
+  rd_run HO (rd_new HO (root_hash HO data) q (mkTree size' bs) stream) = (ys, Finished, st) ->
+  size' = blen HO data) \/
+  collision HO.
+Proof. intros HO Hl Hb. apply (or_collision HO _ Hl Hb). exact (C16_size_authenticated_fsm HO). Qed.
+Print Assumptions C16_size_authenticated_fsm_or_collision.
+
+Theorem C16_wrong_size_rejected_or_collision : forall HO, cv_len32 HO -> beq_correct HO ->
+  (forall (data : bytes HO) size' bs q,
+  size' <= 2 ^ 63 -> blen HO data <= 2 ^ 63 -> bs <= 10 -> wf_ranges q = true ->
+  sel q size' (nchunks size' - 1) = true -> size' <> blen HO data ->
+  forall (stream : bytes HO) ys o st,
+  dec_run HO (dec_new HO (root_hash HO data) (mkTree size' bs) stream q) = (ys, o, st) ->
+  exists e, o = Failed e) \/
+  collision HO.
+Proof. intros HO Hl Hb. apply (or_collision HO _ Hl Hb). exact (C16_wrong_size_rejected HO). Qed.
+Print Assumptions C16_wrong_size_rejected_or_collision.
+
+Theorem C16_wrong_size_rejected_fsm_or_collision : forall HO, cv_len32 HO -> beq_correct HO ->
+  (forall (data : bytes HO) size' bs q,
+  size' <= 2 ^ 63 -> blen HO data <= 2 ^ 63 -> bs <= 10 -> wf_ranges q = true ->
+  sel q size' (nchunks size' - 1) = true -> size' <> blen HO data ->
+  forall (stream : bytes HO) ys o st,
+  rd_run HO (rd_new HO (root_hash HO data) q (mkTree size' bs) stream) = (ys, o, st) ->
+  exists e, o = Failed e) \/
+  collision HO.
+Proof. intros HO Hl Hb. apply (or_collision HO _ Hl Hb). exact (C16_wrong_size_rejected_fsm HO). Qed.
+Print Assumptions C16_wrong_size_rejected_fsm_or_collision.
+
